@@ -203,9 +203,8 @@ pub fn exp_cost_built<T: HLabel>(built: &Built<T>) -> u64 {
 /// Encoders to exercise for a target on this graph (the exp complete encoder is left out when its
 /// clause count would explode; counted in the evidence, not a verdict).
 pub fn usable_encoders(ctx: &mut Ctx, cost: u64, t: &Target) -> Vec<Enc> {
-    t.ty.encoders(t.kind)
-        .iter()
-        .copied()
+    t.ty.configs(t.kind)
+        .into_iter()
         .filter(|e| {
             if *e == Enc::ExpCo && cost > EXP_COST_LIMIT {
                 ctx.count("skipped/exp-encoder-clause-explosion");
@@ -308,6 +307,7 @@ fn check_c01<T: HLabel>(env: &mut Env, built: &Built<T>) {
             for round in 0..2 {
                 env.ctx.eval();
                 env.ctx.count(&format!("queries/{}", t.problem()));
+                env.ctx.count(&format!("configurations/{}", enc.name()));
                 let r = ask(built, &mut solver, &q);
                 if note_monitor(env, &h, t, *enc, &q) {
                     break;
@@ -546,6 +546,7 @@ fn check_acceptance<T: HLabel>(env: &mut Env, built: &Built<T>, rng: &mut Rng) {
                 };
                 env.ctx.eval();
                 env.ctx.count(&format!("queries/{}", t.problem()));
+                env.ctx.count(&format!("configurations/{}", enc.name()));
                 let (r, h) = run_one(built, t, *enc, &q, cap);
                 if note_monitor(env, &h, t, *enc, &q) {
                     continue;
@@ -713,6 +714,7 @@ fn check_c07<T: HLabel>(env: &mut Env, built: &Built<T>, rng: &mut Rng) {
                 };
                 env.ctx.eval();
                 env.ctx.count(&format!("lists/{}", class));
+                env.ctx.count(&format!("configurations/{}", enc.name()));
                 let (r, h) = run_one(built, t, enc, &q, cap);
                 if note_monitor(env, &h, t, enc, &q) {
                     continue;
